@@ -96,7 +96,12 @@ def c16_safe_monitor(case_line, result):
 
 
 PROPS = {
-    'C01': dict(level='proof', module='EscProofs.P.C01', streams=hist('C01'),
+    'C01': dict(level='proof', module='EscProofs.P.C01',
+                streams=dict(quick=[('scenario', ['-dir', '@ROOT/corpus/C01']), ('hist', ['-n', 400, '-scans', 10]), ('hist', ['-n', 200, '-scans', 10, '-focus', 'down']),
+                                    ('hist', ['-n', 200, '-scans', 10, '-focus', 'annot']), ('hist', ['-n', 150, '-scans', 10, '-focus', 'churn'])],
+                             thorough=[('scenario', ['-dir', '@ROOT/corpus/C01']), ('hist', ['-n', 20000, '-scans', 12]), ('hist', ['-n', 8000, '-scans', 12, '-focus', 'down']),
+                                       ('hist', ['-n', 8000, '-scans', 12, '-focus', 'annot']), ('hist', ['-n', 6000, '-scans', 12, '-focus', 'churn'])],
+                             search=[('hist', ['-n', 1500, '-scans', 12]), ('hist', ['-n', 800, '-scans', 12, '-focus', 'down']), ('hist', ['-n', 800, '-scans', 12, '-focus', 'annot'])]),
                 technique='Lean 4 theorem over an executable model (journal soundness by induction over node lists, lifted to histories) + differential correspondence and runtime monitor on the real code',
                 level_text='Theorems C01_scan / C01_history (in full since the repair of finding T1, fix 972e64a): for every configuration with non-negative grace periods, '
                            'controller state, view with ANY taint values, clocks, ordering and environment responses, along every history with restarts, each terminate/delete call of the '
